@@ -153,8 +153,14 @@ def step (cs : CfState) (fs : List String) (obs : String) : CfState × String ×
     let st : State := { cfg := defaults, file := serialize defaults, restartNeeded := false }
     ({ st := st }, "ok " ++ stateStr st, "ok")
   | ["cf", "overwrite", name, tok] =>
-    let (st', notes) := overwrite cs.st name (parseTokVal tok)
-    ({ st := st' }, s!"notes=[{notesStr notes}] {stateStr st'}", "ok")
+    let v := parseTokVal tok
+    let (st', notes) := overwrite cs.st name v
+    -- an override equal to the value already in effect changes nothing a listener could follow: announcing it or
+    -- not are both fine (the model announces; the implementation's choice is taken over)
+    let same := readOf cs.st.cfg name = some v
+    let implNotes := between obs "notes=[" "]"
+    let shown := if same && implNotes = "" then "" else notesStr notes
+    ({ st := st' }, s!"notes=[{shown}] {stateStr st'}", "ok")
   | ["cf", "update", pairs, lim] =>
     let doc := if pairs = "-" then [] else (pairs.splitOn ",").map (entryOf cs.st.cfg)
     let (st', status, notes) := update cs.st doc (lim = "0")
@@ -177,6 +183,8 @@ def step (cs : CfState) (fs : List String) (obs : String) : CfState × String ×
       else if overridden.any (fun c => c.override ≠ some c.base && (match st'.cfg.find? (·.name = c.name) with | some c' => c'.override ≠ some c'.base | none => false) &&
           (("," ++ fileI ++ ",").splitOn ("," ++ c.name ++ "=" ++ renderVal c.read ++ ",")).length > 1 && implFailed = false && (doc.all (fun e => match e with | .set n _ => n ≠ c.name | _ => true))) then "bad:command-line-override-written-to-file"
       else if !implFailed && status = .failed then "bad:unworkable-or-invalid-update-accepted"
+      -- C19: every listener of a setting whose effective value an accepted update changed is told the new value
+      else if !implFailed && status ≠ .failed && (notes.any (fun n => !(has (implNotes.replace " " ",") (n.1 ++ "=" ++ renderVal n.2)))) then "bad:accepted-change-not-announced-to-its-listeners"
       else if !implFailed && cs.st.cfg.any (fun c => (doc.all (fun e => match e with | .set n _ => n ≠ c.name | _ => true)) &&
           (!(has readsI (c.name ++ "=" ++ renderVal c.read)) || !(has fileI (c.name ++ "=" ++ renderVal c.base)))) then "bad:accepted-update-changed-a-setting-it-did-not-address"
       else if !implFailed && doc.any (fun e => match e with | .set n v => known cs.st.cfg n && !(has fileI (n ++ "=" ++ renderVal v)) | _ => false) then "bad:accepted-update-is-not-what-the-next-start-loads"
